@@ -172,15 +172,17 @@ def u_frame(ctx):
     k = ctx.params["rot"]
     R = lib.ROTATIONS[k]
     t = ctx.reals("t", 3)
+    rho = ctx.real("rho", 0.001, 1000)
     ctx.assume(abs(vol) >= 1e-6)
+    m.density = rho
     T = lib.affine(R, t, ctx.sym)
     got = m.moment_inertia_frame(T)
     s = V[0] + V[1] + V[2] + V[3]
     m2 = simplex_moments(list(V), vol)
     I_t = inertia_from_second(m2, vol, vol * s / 4, t)
     Ro = lib.as_obj(R)
-    exp = Ro.T.dot(I_t).dot(Ro)
-    ctx.eq("frame-tensor", got, exp)
+    exp = rho * Ro.T.dot(I_t).dot(Ro)
+    ctx.eq("frame-tensor (density symbolic)", got, exp)
 
 
 def u_transform_inertia(ctx):
@@ -232,7 +234,7 @@ def units(tier):
     rots = [1, 4] if tier == "quick" else list(range(len(lib.ROTATIONS)))
     for k in rots:
         us.append(Unit("frame-rot%d" % k, u_frame, params={"rot": k}, functions=F_MESH + ["Trimesh.moment_inertia_frame", "trimesh.inertia.transform_inertia"], key="frame",
-                       bounds="tetrahedron |V|>=1e-6; frame = catalogue rotation %d x any translation" % k, subspace="rotation catalogue (exact rationals) x symbolic translation x symbolic tetrahedron", ob_ms=120000, wall_s=400))
+                       bounds="tetrahedron |V|>=1e-6; any density in [1e-3,1e3]; frame = catalogue rotation %d x any translation" % k, subspace="rotation catalogue (exact rationals) x symbolic translation x symbolic tetrahedron", ob_ms=120000, wall_s=400))
         us.append(Unit("transform_inertia-rot%d" % k, u_transform_inertia, params={"rot": k}, functions=["trimesh.inertia.transform_inertia"], key="transform_inertia",
                        bounds="two point masses (8 reals) x any translation x catalogue rotation %d" % k, ob_ms=120000, wall_s=400))
     return us
